@@ -251,7 +251,7 @@ Proof.
     destruct (str_eqb_spec p dot); [contradiction|].
     cbn [f_mode mk_file h_mode_ov h_mode].
     destruct (is_dir (r_mode rc)) eqn:D; cbn [andb].
-    + unfold f_names. cbn [h_names mk_file]. unfold snames.
+    + unfold f_names. cbn [h_names h_fresh mk_file]. unfold snames.
       destruct (tick_nf st1 (proj2 R1)) as [Rt Bt]. destruct (tick st1) as [stt bad]. cbn [fst snd] in *. subst bad.
       cbn [h_path h_mode mk_file]. rewrite D. rewrite (proj1 Rt), (proj1 R1).
       destruct (child_names p (st_store st)) as [|x l]; cbn [fst snd].
